@@ -372,7 +372,7 @@ FlattenHeaderAndMessageAux(const MessageRef & msgRef) const
    if (msgRef())
    {
       MessageReuseTagRef mrtRef;
-      if (msgRef()->FindTag(PR_NAME_MESSAGE_REUSE_TAG, mrtRef).IsOK())
+      if ((AreFlattenedBuffersShareable())&&(msgRef()->FindTag(PR_NAME_MESSAGE_REUSE_TAG, mrtRef).IsOK()))
       {
          DECLARE_MUTEXGUARD(_messageReuseTagMutex);  // in case (msgRef) has been shared across threads!
 
